@@ -29,7 +29,50 @@ COMMON_ASSUMPTIONS = [
     "heap capacities are concrete per query (enumerated by the driver), lengths/indices/payloads are symbolic",
 ]
 
-PROP_META = {}
+
+KANI_BOUNDS = ("lengths/capacities/indices <= 3 (quick) / 4-5 (thorough) with the shape symbolic for element sizes <= 8 bytes and enumerated for larger ones; "
+               "replacement lengths <= 2-3; element layouts {0,1,2,3,8,12,16,24,32,64,160 bytes; align 1..64; with/without drop glue}; backends Heap, Stack, StackN, user-defined relocating Reloc; "
+               "constraint sets none / Cloneable / Send / Sync / Cloneable+Send+Sync. Everything larger is outside the claim.")
+PROP_META = {
+    "C01": dict(bounds=KANI_BOUNDS, explanation="one operation instance from an arbitrary valid state vs a Vec reference model; post-state re-checked to be a valid state (inductive step)",
+                assumptions=["'leaves the vector unchanged' after an out-of-range panic is observed only in native replay (a panic ends the path under Kani); index_check / get bounds also discharged over the full usize range by the MIR->SMT engine"]),
+    "C02": dict(bounds=KANI_BOUNDS + " MIR->SMT: into_range over the full 64-bit range for arbitrary Bound results, both overflow-check modes.",
+                explanation="drain/splice from an arbitrary state for every range, RangeBounds form, replacement and front/back consumption; invalid ranges must panic in into_range",
+                assumptions=["splice on resizable storage: (len, range, replacement length) concrete per query, enumerated by the driver (a symbolic allocation size does not finish); symbolic on fixed-capacity storage"]),
+    "C03": dict(bounds=KANI_BOUNDS + " Three-vector chains: concrete shapes, 2-3 steps, symbolic payloads.", explanation="identity registry (live/drops per element id) updated by the elements' own Drop/Clone; visibility == liveness <= 1 for an arbitrary id",
+                assumptions=["two-vector exchange kinds are decided from arbitrary states (symbolic), three-vector chains for enumerated concrete shapes only"]),
+    "C04": dict(bounds=KANI_BOUNDS, explanation="mismatched offers must end in the type-check panic (assert_failed stub runs the 'state at rejection' inspector); downcasts succeed iff the type is the real one",
+                assumptions=["'the rejected value is dropped once' happens during unwinding: checked in native replay only"]),
+    "C05": dict(bounds=KANI_BOUNDS, explanation="C01/C02/C08/C10 harness bodies on the relocating user backend and on Heap (Kani's realloc always relocates): CBMC pointer checks + core ub_checks are the oracle",
+                assumptions=["uninitialised reads are detected only when they influence an observable value", "no borrow-tag (Stacked/Tree Borrows) model"]),
+    "C06": dict(bounds=KANI_BOUNDS + " Fault point: 1..=5-7 (symbolic); misreported len: -2..=+2.", explanation="at the k-th user-code invocation (k symbolic) every vector is inspected at that instant, then the path ends; native replay really panics and unwinds",
+                assumptions=["what a real unwind does after the fault point (drop glue of locals) is not modelled by Kani; it is exercised by the native replay of any counterexample"]),
+    "C07": dict(bounds=KANI_BOUNDS, explanation="forget the handle / iterator at every stage, then validity predicate + further use + drop (leaks allowed, double destruction not)", assumptions=[]),
+    "C08": dict(bounds=KANI_BOUNDS, explanation="clone from every state: per-id clone counters, storage disjointness, independence under one further operation; clone_empty(_in) across backends",
+                assumptions=["on resizable storage the cloned length is concrete per query (enumerated)"]),
+    "C09": dict(bounds=KANI_BOUNDS + " chain depth 1..3, consumptions 0..3.", explanation="clone / drop counters around creation, copy, drop and each consumption of lazy clones", assumptions=[]),
+    "C10": dict(bounds=KANI_BOUNDS + " MIR->SMT: reserve / reserve_exact / shrink_to / shrink_to_fit / HeapMem::expand / HeapMem::resize over the full 64-bit range, both overflow-check modes.",
+                explanation="capacity calls from every (len, capacity) state with symbolic argument; allocator events via logging stubs; arithmetic kernels over all 64-bit values",
+                assumptions=["amortisation: 'each growth at least doubles capacity' is solver-checked (Kani for small states, MIR->SMT for every 64-bit capacity); 'therefore logarithmically many reallocations' is the usual induction, not a solver result; push runs of 2^16 are not executed",
+                             "HeapMem::expand is checked under its callers' contract size + additional <= usize::MAX"]),
+    "C11": dict(bounds=KANI_BOUNDS + " const-generic grid around multiples of the element size (listed per harness). MIR->SMT: Stack::build / StackN::build with SIZE, N, element size free 64-bit variables.",
+                explanation="capacity grid, capacity+1 must panic, all stack harnesses with allocator stubs that fail on any heap request", assumptions=[]),
+    "C12": dict(bounds=KANI_BOUNDS + " MIR->SMT byte-view kernels: element size <= 2^20, capacity <= 2^40.", explanation="vector placed at a symbolic admissible offset in a 64-aligned arena; pointer/length identities of every view; spare capacity write + set_len",
+                assumptions=["CBMC treats every object base as maximally aligned: alignment is claimed only relative to the 64-aligned arena (inline storage) and for the dangling pointer of empty storage"]),
+    "C13": dict(bounds=KANI_BOUNDS, explanation="accessor i addresses exactly base + i*size and reports true type/size/bytes; write through one view kind, read through another; swap for every handle pairing", assumptions=[]),
+    "C14": dict(bounds=KANI_BOUNDS + " L+2 calls, each a symbolic next/next_back choice (all interleavings in one query).", explanation="size_hint/len exact at every step, front ascending / back descending, fused, clone independent; cursor arithmetic also via MIR->SMT", assumptions=[]),
+    "C15": dict(level="other", bounds="8 constraint sets (enumerated) x free boolean flags for backend / element / replacement iterator; all public handle types listed in the evidence",
+                explanation="trait-clause encoding: explicit impl headers and struct field types from rustdoc JSON become boolean formulas over configuration flags; z3 searches for a configuration contradicting the property. "
+                            "Weaker than executing code: the auto-trait derivation and impl matching are this checker's model of the compiler; the model is compared with rustc on 480 concrete facts every run and a sat model is a concrete configuration.",
+                assumptions=["auto-trait rules and impl matching as rendered in traitsmt/check.py (no overlapping or negative impls in the crate; unknown external type constructors make the run inconclusive)",
+                             "typed views are compared with a vector whose capabilities are exactly those of T, M, M::Mem"]),
+    "C17": dict(bounds=KANI_BOUNDS, explanation="into_raw_parts / RawParts::clone / from_raw_parts round trips (once, twice) then one further operation; allocator events via logging stubs; Empty backend", assumptions=[]),
+    "C18": dict(bounds=KANI_BOUNDS + " MIR->SMT: HeapMem::resize as one inductive step over all 64-bit (size, element layout, new_size) satisfying the representation invariant.",
+                explanation="logging allocator stubs assert layout validity and consistency at every alloc/realloc/dealloc; capacity requests over the full usize range must panic or present a valid layout",
+                assumptions=["requests above 4096 bytes are validity-checked by the stub and then the path ends (nothing is allocated)"]),
+    "C19": dict(bounds=KANI_BOUNDS, explanation="the same stack-backend harness bodies compiled against any_vec with default features and with --no-default-features; side checks: the no-default-features MIR contains no path into the alloc crate and no heap module",
+                assumptions=["'compiles without the alloc crate' is established by building (Kani's compile) and a syntactic scan of the MIR dump, not by the solver"]),
+}
 _ENTRIES = []
 _BYNAME = {}
 
